@@ -1,2 +1,123 @@
-From PV Require Import Lib.GoInt C34.Generated C34.Model.
+(* C34 — Booklet and n-up imposition place every selected page exactly once.
+   Property theorems only.  Model: coq/C34/Generated.v (position functions, regenerated from
+   pkg/pdfcpu/booklet.go and nup.go on every run) + coq/C34/Model.v (dispatch, padding, multi-folio loop).
+
+   Reading: `pages` is the sorted list of selected page numbers (sortSelectedPages), k = slice_len pages;
+   a slot is (page number, rotate), page number 0 = blank; `accepted N bt` = the configurations
+   api.Booklet accepts: N in {2,4,6,8}, booklet type in {Booklet, BookletAdvanced, BookletPerfectBound};
+   binding bd, orientation ls (landscape), fold tf are arbitrary; IW = width of Go's int;
+   `fits IW n` = 2 <= IW and 4n + 256 <= MaxInt (no arithmetic overflow in the position functions). *)
+From PV Require Import Lib.GoInt C34.Generated C34.Model C34.ProofsBase C34.ProofsOrder C34.ProofsNup.
+From Coq Require Import Permutation Lia.
 Open Scope Z_scope.
+
+(* Plain booklets, every selected-page count (k = 0 included), every accepted configuration:
+   no panic, and the slot sequence is a permutation of the selected pages plus blanks only. *)
+Theorem C34_ordering_is_permutation : forall IW N bt bd ls tf folio pages,
+  accepted N bt -> fits IW (slice_len pages + 2 * N) ->
+  exists slots, getBookletOrdering IW N bt bd ls tf false folio pages = Ok slots /\
+    Permutation (map fst slots) (pages ++ repeat 0 (Z.to_nat (Z.of_nat (length slots) - slice_len pages))).
+Proof.
+  intros IW N bt bd ls tf folio pages Ha Hf.
+  destruct (ordering_plain IW N bt bd ls tf folio pages Ha Hf) as (slots & H1 & H2 & H3).
+  exists slots. split; [exact H1|]. rewrite H2. exact H3.
+Qed.
+Print Assumptions C34_ordering_is_permutation.
+
+(* ... the number of slots is a whole number of sheets (2N slots per sheet) and the padding is less than one sheet *)
+Theorem C34_slots_whole_sheets : forall IW N bt bd ls tf folio pages,
+  accepted N bt -> fits IW (slice_len pages + 2 * N) ->
+  exists slots, getBookletOrdering IW N bt bd ls tf false folio pages = Ok slots /\
+    Z.of_nat (length slots) mod (2 * N) = 0 /\
+    0 <= Z.of_nat (length slots) - slice_len pages < 2 * N.
+Proof.
+  intros IW N bt bd ls tf folio pages Ha Hf.
+  destruct (ordering_plain IW N bt bd ls tf folio pages Ha Hf) as (slots & H1 & H2 & H3).
+  exists slots. split; [exact H1|]. rewrite H2.
+  destruct Ha as (HN & _).
+  destruct (padTo_spec (slice_len pages) (2 * N) (slice_len_nonneg pages) ltac:(lia)) as (Hm & Hr).
+  split; [exact Hm|lia].
+Qed.
+Print Assumptions C34_slots_whole_sheets.
+
+(* counting form: with distinct non-zero page numbers every selected page occupies exactly one slot,
+   no other page number occurs, and the blanks are exactly the padding *)
+Theorem C34_each_page_exactly_once : forall IW N bt bd ls tf folio pages,
+  accepted N bt -> fits IW (slice_len pages + 2 * N) -> NoDup pages -> ~ In 0 pages ->
+  exists slots, getBookletOrdering IW N bt bd ls tf false folio pages = Ok slots /\
+    (forall p, In p pages -> count_occ Z.eq_dec (map fst slots) p = 1%nat) /\
+    (forall p, p <> 0 -> ~ In p pages -> count_occ Z.eq_dec (map fst slots) p = 0%nat) /\
+    Z.of_nat (count_occ Z.eq_dec (map fst slots) 0) = Z.of_nat (length slots) - slice_len pages.
+Proof.
+  intros IW N bt bd ls tf folio pages Ha Hf Hnd H0.
+  destruct (ordering_plain IW N bt bd ls tf folio pages Ha Hf) as (slots & H1 & H2 & H3).
+  exists slots. split; [exact H1|].
+  destruct (once_each _ _ _ H3 Hnd H0) as (Ha1 & Ha2 & Ha3).
+  split; [exact Ha1|]. split; [exact Ha3|]. rewrite Ha2, H2.
+  destruct Ha as (HN & _).
+  destruct (padTo_spec (slice_len pages) (2 * N) (slice_len_nonneg pages) ltac:(lia)) as (Hm & Hr). lia.
+Qed.
+Print Assumptions C34_each_page_exactly_once.
+
+(* Multi-folio booklets: proved for the folio sizes whose signature (4 * folio pages, as the code
+   computes it for every N) is a whole number of sheets: every folio size for N = 2, even ones for
+   N = 4, multiples of 3 for N = 6, multiples of 4 for N = 8.
+   FULL STATEMENT (false for the code, see C34_multifolio_refuted): the same without the
+   hypothesis (4 * folio) mod (2 * N) = 0.  Missing: nothing provable - the code panics there. *)
+Theorem C34_multifolio_partial : forall IW N bt bd ls tf folio pages,
+  accepted N bt -> 1 <= folio -> (4 * folio) mod (2 * N) = 0 -> 1 <= slice_len pages ->
+  fits IW (slice_len pages + 2 * N) ->
+  exists slots, getBookletOrdering IW N bt bd ls tf true folio pages = Ok slots /\
+    Permutation (map fst slots) (pages ++ repeat 0 (Z.to_nat (Z.of_nat (length slots) - slice_len pages))) /\
+    Z.of_nat (length slots) mod (2 * N) = 0 /\
+    0 <= Z.of_nat (length slots) - slice_len pages < 2 * N.
+Proof.
+  intros IW N bt bd ls tf folio pages Ha Hfo Hg Hk Hf.
+  destruct (ordering_multifolio IW N bt bd ls tf folio pages Ha Hfo Hg Hk Hf) as (slots & H1 & H2 & H3).
+  exists slots. split; [exact H1|]. rewrite H2. split; [exact H3|].
+  destruct Ha as (HN & _).
+  destruct (padTo_spec (slice_len pages) (2 * N) (slice_len_nonneg pages) ltac:(lia)) as (Hm & Hr).
+  split; [exact Hm|lia].
+Qed.
+Print Assumptions C34_multifolio_partial.
+
+(* The defect: an accepted multi-folio configuration with N >= 4 on which the model of
+   getBookletOrdering (and the real function, see the harness) panics: N = 4, folio size 1, 9 pages. *)
+Theorem C34_multifolio_refuted : exists N bt bd ls tf folio pages,
+  accepted N bt /\ 1 <= folio /\ 1 <= slice_len pages /\ fits 64 (slice_len pages + 2 * N) /\
+  getBookletOrdering 64 N bt bd ls tf true folio pages = Err.
+Proof.
+  exists 4, 0, 0, false, false, 1, [1;2;3;4;5;6;7;8;9].
+  split; [unfold accepted; lia|]. split; [lia|]. split; [vm_compute; congruence|].
+  split; [unfold fits, maxS; vm_compute; repeat split; congruence|]. exact multifolio_panics.
+Qed.
+Print Assumptions C34_multifolio_refuted.
+
+(* n-up and grid (nup.go impositionPages, N = cells per output page): the slots are the selected
+   pages in order followed by blanks, a whole number of output pages, padding below one page ... *)
+Theorem C34_nup_in_order : forall IW N sorted, 0 < N ->
+  exists blanks, nupSlots IW N sorted = sorted ++ repeat 0 (Z.to_nat blanks) /\
+    0 <= blanks < N /\ (slice_len sorted + blanks) mod N = 0.
+Proof.
+  intros IW N sorted HN. exists (padTo (slice_len sorted) N - slice_len sorted).
+  split; [apply nupSlots_spec; exact HN|].
+  destruct (padTo_spec (slice_len sorted) N (slice_len_nonneg sorted) HN) as (Hm & Hr).
+  split; [lia|]. replace (slice_len sorted + (padTo (slice_len sorted) N - slice_len sorted)) with (padTo (slice_len sorted) N) by lia.
+  exact Hm.
+Qed.
+Print Assumptions C34_nup_in_order.
+
+(* ... and the number of output pages is ceil(k / N) *)
+Theorem C34_nup_pages : forall N sorted, 0 < N -> 1 <= slice_len sorted ->
+  nupOutputPages N sorted = (slice_len sorted + N - 1) / N.
+Proof. exact nupOutputPages_spec. Qed.
+Print Assumptions C34_nup_pages.
+
+(* non-vacuity: hypotheses are satisfiable, concrete orderings *)
+Example C34_nonvacuous :
+  accepted 2 0 /\ accepted 8 2 /\ fits 64 (slice_len [1;2;3;4;5] + 2 * 8) /\
+  getBookletOrdering 64 2 0 0 false false false 8 [1;2;3;4;5]
+    = Ok [(0,true);(1,true);(0,false);(2,false);(0,true);(3,true);(5,false);(4,false)] /\
+  (4 * 3) mod (2 * 6) = 0 /\
+  nupSlots 64 4 [1;3;5;7;9] = [1;3;5;7;9;0;0;0] /\ nupOutputPages 4 [1;3;5;7;9] = 2.
+Proof. unfold accepted, fits, maxS. vm_compute. repeat split; try congruence; lia. Qed.
